@@ -122,6 +122,18 @@ CHECKS = {
         note="Exact values only where a rational closed form exists; Jensen-Shannon / symmetric KL are checked against the "
              "stated axioms (finite, non-negative, symmetric, zero on proportional inputs, sparse = dense) only.",
         tech="algorithmic + functional TLA+ specifications, TLC enumeration replayed into the code, trace validation of axiom events"),
+    "C20": dict(
+        cat="model_checking", ref="5 (C20), 4.16",
+        text="Histogram.tla transcribes the training filter, interval_range / the cumulative-sum quantile rule, "
+             "expand_boundaries and add_outier_bins on integer data and TLC checks Partition (gap-free, increasing, spanning "
+             "the absolute range) and Conservation (row total = values in (lo, hi]) on every generated instance; bins and rows "
+             "are compared exactly with HistogramVectorizer (fit, transform of new data incl. values equal to the training "
+             "extremes and far outside, fit_transform; lists and arrays). KDE: Protocol.tla histories over a pool in which pairs "
+             "of items are permutations of one another (mapped to one memo key), decided by Trace_Protocol.tla, plus sign / "
+             "finiteness / width observations.",
+        note="Seeded random instances (700 quick / 8000 thorough), uniform data scaled so that breaks are integers; KDE density "
+             "values themselves need exp and are not given an oracle (the statement does not ask for one).",
+        tech="functional TLA+ specification evaluated by TLC per instance + protocol trace validation for KDE"),
     "C19": dict(
         cat="model_checking", ref="5 (C19), 4.15",
         text="SlidingWindow.tla states the documented meaning (padding, number of windows, window i = elements "
